@@ -307,7 +307,7 @@ def check_history(case):
 def parts(tier):
     return [
         Part("shipped", kind="enum", cases=_shipped_cases, check=check_shipped, exhaustive=True),
-        Part("custom", strategy=_custom(), check=check_custom, n={"quick": 8000, "thorough": 160000}),
+        Part("custom", strategy=_custom(), check=check_custom, n={"quick": 8000, "thorough": 500000}),
         Part("history", strategy=_hist(), check=check_history, n={"quick": 480, "thorough": 8000}),
     ]
 
